@@ -138,9 +138,10 @@ func (r *recorder) WriteHeader(code int) {
 		return
 	}
 
+	// The header counts as written once the underlying writer took it (net/http panics on an invalid code).
+	r.ResponseWriter.WriteHeader(code)
 	r.size = 0
 	r.status = code
-	r.ResponseWriter.WriteHeader(code)
 }
 
 // Write writes the data to the connection as part of an HTTP reply.
